@@ -47,7 +47,7 @@ struct Spec {
     omim_name: usize, // index into names, or names.len() = 70_000 byte name
     orpha_name: usize,
     obsolete: bool,
-    replacement: u8, // 0 none, 1 -> HP:118, 2 -> HP:1
+    replacement: u8, // 0 none, 1 -> HP:118, 2 -> HP:1, 3 -> HP:4242 (a term that is absent from the ontology)
     extra_id: u32,
     rec_id: u32,
     rec_terms: u8, // 0, 1, 2 direct terms per record
@@ -70,7 +70,7 @@ impl Spec {
         f.terms.push(Facts::term(1, "All"));
         f.terms.push(Facts::term(118, "Phenotypic abnormality"));
         f.edges.push((118, 1));
-        f.terms.push(crate::model::TermFact { id: self.extra_id, name: name_of(self.term_name), obsolete: self.obsolete, replacement: match self.replacement { 0 => None, 1 => Some(118), _ => Some(1) } });
+        f.terms.push(crate::model::TermFact { id: self.extra_id, name: name_of(self.term_name), obsolete: self.obsolete, replacement: match self.replacement { 0 => None, 1 => Some(118), 2 => Some(1), _ => Some(4242) } });
         if !self.obsolete || self.obsolete_keeps_link {
             f.edges.push((self.extra_id, 118));
         }
@@ -117,6 +117,11 @@ impl Spec {
     fn textable(&self) -> bool {
         self.version.0 <= 9999 && self.version.1 <= 99 && self.version.2 <= 99
     }
+    /// HP:0000000 as a real term: the id range is documented as "1 to 10 million" in one place and ids are plain u32
+    /// in the public API, so a constructor may refuse it (tolerated); an ontology that does contain it must round-trip
+    fn tolerant(&self) -> bool {
+        self.extra_id == 0
+    }
 }
 
 /// the alternative values of every dimension (deviations from the base)
@@ -134,6 +139,8 @@ fn deviations() -> Vec<(String, Box<dyn Fn(&mut Spec)>)> {
     v.push(("obsolete".into(), Box::new(|s: &mut Spec| s.obsolete = true)));
     v.push(("replacement -> HP:118".into(), Box::new(|s: &mut Spec| s.replacement = 1)));
     v.push(("replacement -> HP:1".into(), Box::new(|s: &mut Spec| s.replacement = 2)));
+    v.push(("replacement -> HP:4242 (absent from the ontology)".into(), Box::new(|s: &mut Spec| s.replacement = 3)));
+    v.push(("extra id 0".into(), Box::new(|s: &mut Spec| s.extra_id = 0)));
     v.push(("extra id 2".into(), Box::new(|s: &mut Spec| s.extra_id = 2)));
     v.push(("extra id 9999999".into(), Box::new(|s: &mut Spec| s.extra_id = 9_999_999)));
     v.push(("record id 1".into(), Box::new(|s: &mut Spec| s.rec_id = 1)));
@@ -155,14 +162,37 @@ fn deviations() -> Vec<(String, Box<dyn Fn(&mut Spec)>)> {
     v
 }
 
+/// The text formats cannot carry an empty (or all-blank) term name, gene symbol or disease name: `name: ` and an
+/// empty tab-separated column are not valid JAX content, so such fact sets are not built through the text loaders.
+fn text_expressible(f: &Facts) -> bool {
+    f.terms.iter().all(|t| !t.name.trim().is_empty()) && f.anns.iter().filter(|a| a.term.is_some()).all(|a| !a.name.trim().is_empty())
+}
+
+#[derive(Clone, Copy, Default)]
+struct Rt {
+    /// the source was built without the default categories / modifier roots (`sub_ontology` returns such ontologies);
+    /// the binary format does not store them and the loader always applies the defaults, so they are not compared
+    no_defaults: bool,
+    /// a source whose own read API is inconsistent is skipped instead of reported (HP:0000000, see Spec::tolerant)
+    tolerant: bool,
+}
+
 /// serialise, reload, compare through the whole read API and compare(); then once more (fixed point)
 fn roundtrip(ctx: &mut Ctx, o: &Ontology, constructor: &str, case: &dyn Fn() -> Value) {
+    roundtrip_with(ctx, o, constructor, case, Rt::default())
+}
+
+fn roundtrip_with(ctx: &mut Ctx, o: &Ontology, constructor: &str, case: &dyn Fn() -> Value, rt: Rt) {
     ctx.exec();
     ctx.validated();
     ctx.transitions(2);
     let site = "Ontology::as_bytes -> from_bytes";
     let before = match Obs::of(o) {
         Ok(b) => b,
+        Err(_) if rt.tolerant => {
+            ctx.bump("sources_with_term_id_0_not_walkable_skipped", 1);
+            return;
+        }
         Err(i) => {
             ctx.violation(&i.site, &format!("[{constructor}] read API inconsistent before serialisation"), json!({"case": case(), "observed": i.what}));
             return;
@@ -211,6 +241,16 @@ fn roundtrip(ctx: &mut Ctx, o: &Ontology, constructor: &str, case: &dyn Fn() -> 
             return;
         }
     };
+    if rt.no_defaults {
+        exp.categories = after.categories.clone();
+        exp.modifier = after.modifier.clone();
+        for (e, a) in exp.terms.iter_mut().zip(after.terms.iter()) {
+            if e.id == a.id {
+                e.is_modifier = a.is_modifier;
+                e.categories = a.categories.clone();
+            }
+        }
+    }
     if let Some((s, sig, det)) = after.diff(&exp, true) {
         ctx.violation(&s, &format!("[round trip] {sig}"), json!({"case": case(), "constructor": constructor, "difference (reloaded vs original)": det}));
         return;
@@ -267,44 +307,140 @@ fn roundtrip(ctx: &mut Ctx, o: &Ontology, constructor: &str, case: &dyn Fn() -> 
     ctx.outcome(after.fingerprint());
 }
 
+/// which of the additional source constructors (`extra_sources`) a case runs: bit e = constructor e
+/// (0 clone, 1 sub_ontology, 2 v2 file, 3 v1 file, 4 from_standard_transitive).
+/// `clone()` copies the 80 MB id table of the arena (some 30 ms), so it is taken on fewer cases than the others.
+type Extras = u8;
+const EXTRAS_NONE: Extras = 0;
+const EXTRAS_ALL: Extras = 0b11111;
+const EXTRAS_ALL_BUT_CLONE: Extras = 0b11110;
+/// one of the four cheap constructors, in rotation
+fn extras_one(k: usize) -> Extras {
+    1 << (1 + k % 4)
+}
+
+const N_EXTRAS: usize = 5;
+
+/// Further public constructors as sources of the round trip: `clone()` and `sub_ontology(HP:1, every term below it)`
+/// of an ontology that was already built (`base`), `from_bytes` of a v2 and of a v1 file written by the independent
+/// encoder (the documented upgrade path: read an old file, write the newest layout), `from_standard_transitive`.
+#[allow(clippy::too_many_arguments)]
+fn extra_sources(ctx: &mut Ctx, f: &Facts, base: Option<&Ontology>, which: Extras, encodable: bool, textable: bool, tolerant: bool, case: &dyn Fn() -> Value) {
+    let rt = Rt { tolerant, no_defaults: false };
+    for e in 0..N_EXTRAS {
+        if which >> e & 1 == 0 {
+            continue;
+        }
+        match e {
+            0 => {
+                if let Some(b) = base {
+                    match guard(|| b.clone()) {
+                        Ok(c) => roundtrip_with(ctx, &c, "clone() of a built ontology", case, rt),
+                        Err(p) => ctx.violation("Ontology::clone", "panics", json!({"case": case(), "observed": p})),
+                    }
+                }
+            }
+            1 => {
+                if let Some(b) = base {
+                    // whether sub_ontology itself is right is C14's business; here its result is only a source
+                    let res = guard(|| {
+                        let one = hpo::HpoTermId::from_u32(1);
+                        let root = b.hpo(one)?;
+                        let leaves: Vec<hpo::HpoTerm> = b.iter().filter(|t| t.id() == one || t.all_parent_ids().contains(&one)).collect();
+                        b.sub_ontology(root, leaves).ok()
+                    });
+                    match res {
+                        Ok(Some(sub)) if guard(|| sub.hpo(1u32).is_some() && sub.hpo(118u32).is_some()).unwrap_or(false) => {
+                            roundtrip_with(ctx, &sub, "sub_ontology(HP:1, every term below HP:1)", case, Rt { tolerant, no_defaults: true });
+                        }
+                        _ => ctx.bump("sub_ontology_sources_skipped (failed, or without both root terms)", 1),
+                    }
+                }
+            }
+            2 | 3 => {
+                let version = if e == 2 { 2u8 } else { 1u8 };
+                if encodable {
+                    let pf = encode::project(f, version);
+                    ctx.transitions(pf.n_steps());
+                    match drive::from_bytes(&encode::encode(&pf, &EncOpts::v(version))) {
+                        Ok(Ok(o)) => roundtrip_with(ctx, &o, &format!("from_bytes(independent encoder, v{version} file)"), case, rt),
+                        _ if tolerant => ctx.bump("sources_with_term_id_0_refused_by_a_constructor", 1),
+                        other => ctx.violation("Ontology::from_bytes", &format!("rejects a v{version} file laid out as documented"), json!({"case": case(), "observed": format!("{:?}", other.map(|r| r.map(|_| ())))})),
+                    }
+                }
+            }
+            _ => {
+                let mut tf = f.clone();
+                tf.anns.retain(|a| a.term.is_some());
+                if textable && text_expressible(&tf) {
+                    ctx.transitions(tf.n_steps());
+                    match jax::load(&jax::render(&tf, &JaxOpts::default()), true) {
+                        Ok(Ok(o)) => roundtrip_with(ctx, &o, "from_standard_transitive", case, rt),
+                        _ if tolerant => ctx.bump("sources_with_term_id_0_refused_by_a_constructor", 1),
+                        other => ctx.violation("Ontology::from_standard_transitive", "rejects valid JAX files", json!({"case": case(), "observed": format!("{:?}", other.map(|r| r.map(|_| ())))})),
+                    }
+                }
+            }
+        }
+    }
+}
+
 /// Build the ontology of a spec through every public constructor that can express it, and round-trip each.
-fn run_spec(ctx: &mut Ctx, spec: &Spec, label: &str) {
+fn run_spec(ctx: &mut Ctx, spec: &Spec, label: &str, extras: Extras) {
     let f = spec.facts();
     let case = || json!({"deviations": label, "facts": f.to_json()});
+    let tolerant = spec.tolerant();
+    let rt = Rt { tolerant, no_defaults: false };
     let mut built = 0;
+    let mut base: Option<Ontology> = None;
     if !spec.needs_flags() {
         ctx.transitions(f.n_steps());
         match drive::build(&f, Mode::Defaults) {
             Ok(o) => {
                 built += 1;
-                roundtrip(ctx, &o, "Builder", &case);
+                roundtrip_with(ctx, &o, "Builder", &case, rt);
+                base = Some(o);
             }
+            Err(_) if tolerant => ctx.bump("sources_with_term_id_0_refused_by_a_constructor", 1),
             Err(e) => ctx.violation("Builder", "construction fails on valid facts", json!({"case": case(), "observed": e})),
         }
     }
-    if !spec.long_names() && names().get(spec.term_name).map(|n| n.len() <= 255).unwrap_or(false) && names().get(spec.gene_name).map(|n| n.len() <= 255).unwrap_or(false) {
+    if !spec.long_names() {
         ctx.transitions(f.n_steps());
         let bytes = encode::encode(&f, &EncOpts::v(3));
         match drive::from_bytes(&bytes) {
             Ok(Ok(o)) => {
                 built += 1;
-                roundtrip(ctx, &o, "from_bytes(independent encoder)", &case);
+                roundtrip_with(ctx, &o, "from_bytes(independent encoder)", &case, rt);
+                if base.is_none() {
+                    base = Some(o);
+                }
             }
+            _ if tolerant => ctx.bump("sources_with_term_id_0_refused_by_a_constructor", 1),
             other => ctx.violation("Ontology::from_bytes", "rejects a file laid out as documented", json!({"case": case(), "observed": format!("{:?}", other.map(|r| r.map(|_| ())))})),
         }
     }
     if spec.textable() {
-        ctx.transitions(f.n_steps());
         let mut tf = f.clone();
         tf.anns.retain(|a| a.term.is_some());
-        match jax::load(&jax::render(&tf, &JaxOpts::default()), false) {
-            Ok(Ok(o)) => {
-                built += 1;
-                roundtrip(ctx, &o, "from_standard", &case);
+        if text_expressible(&tf) {
+            ctx.transitions(f.n_steps());
+            match jax::load(&jax::render(&tf, &JaxOpts::default()), false) {
+                Ok(Ok(o)) => {
+                    built += 1;
+                    roundtrip_with(ctx, &o, "from_standard", &case, rt);
+                    if base.is_none() {
+                        base = Some(o);
+                    }
+                }
+                _ if tolerant => ctx.bump("sources_with_term_id_0_refused_by_a_constructor", 1),
+                other => ctx.violation("Ontology::from_standard", "rejects valid JAX files", json!({"case": case(), "observed": format!("{:?}", other.map(|r| r.map(|_| ())))})),
             }
-            other => ctx.violation("Ontology::from_standard", "rejects valid JAX files", json!({"case": case(), "observed": format!("{:?}", other.map(|r| r.map(|_| ())))})),
+        } else {
+            ctx.bump("text_path_skipped (an empty or blank name cannot be expressed in the text formats)", 1);
         }
     }
+    extra_sources(ctx, &f, base.as_ref(), extras, !spec.long_names(), spec.textable(), tolerant, &case);
     if built == 0 {
         ctx.bump("specs_not_constructible_through_any_public_constructor", 1);
     }
@@ -312,17 +448,21 @@ fn run_spec(ctx: &mut Ctx, spec: &Spec, label: &str) {
 
 pub fn run(ctx: &mut Ctx) {
     let thorough = ctx.tier.thorough();
-    ctx.rule = "deviation-bounded: case = base ontology (HP:1, HP:118, one further term, two records per kind) with 0, 1, 2 or 3 (thorough: 4) deviations from the listed dimensions (names incl. 255/256-byte and limit-inside-a-character, flags, ids, record shapes, versions), built through every public constructor able to express it (Builder, from_bytes of the independent encoder, from_standard) and round-tripped twice; plus the small-ontology family of C08 (all DAG shapes <= 4 terms with flags and records); distinct by construction; non-trivial = at least one deviation".into();
+    ctx.rule = "deviation-bounded: case = base ontology (HP:1, HP:118, one further term, two records per kind) with 0, 1, 2 or 3 (thorough: 4) deviations from the listed dimensions (names incl. 255/256-byte and limit-inside-a-character, flags, ids, record shapes, versions), built through every public constructor able to express it (Builder, from_bytes of the independent encoder for v3 / v2 / v1 files, from_standard, from_standard_transitive, clone, sub_ontology) and round-tripped twice; plus the small-ontology family of C08 (all DAG shapes <= 4 terms with flags and records); plus structured sizes on the writer side (id lists across 10 / 30 / 255 entries, sections beyond 64 KiB); distinct by construction; non-trivial = at least one deviation".into();
     ctx.assumptions = vec![
         "term and gene names are limited to 255 bytes by the format: the expected reloaded name is the longest prefix ending on a character boundary within 255 bytes; disease names are unlimited".into(),
         "the ontology contains HP:0000001 and HP:0000118".into(),
         "observational identity = equality of the sorted whole-read-API observation (DESIGN.md 2.3), information content bit for bit".into(),
+        "categories and modifier roots are not stored in the file and the loader always applies the defaults: every source is built with the defaults, except sub_ontology results (built without), for which categories / modifier roots / is_modifier are not compared".into(),
+        "a replacement id naming a term that is absent from the ontology is data like any other and must survive unchanged".into(),
+        "HP:0000000 as a real term: a constructor may refuse it and a source that is not walkable is skipped; an ontology that contains it must round-trip".into(),
+        "empty or all-blank term names / gene symbols / disease names cannot be expressed in the text formats: such fact sets are not built through the text loaders".into(),
     ];
     let devs = deviations();
-    ctx.space("deviations/0-and-1", &format!("base + each of {} single deviations", devs.len()));
+    ctx.space("deviations/0-and-1", &format!("base + each of {} single deviations, each through Builder / from_bytes(encoder) / from_standard and clone / sub_ontology / v2 file / v1 file / from_standard_transitive where expressible", devs.len()));
     if ctx.take() {
         ctx.state();
-        run_spec(ctx, &Spec::base(), "none");
+        run_spec(ctx, &Spec::base(), "none", EXTRAS_ALL);
         ctx.sample(|| json!({"deviations": "none", "facts": Spec::base().facts().to_json()}));
     }
     for (name, d) in &devs {
@@ -333,12 +473,14 @@ pub fn run(ctx: &mut Ctx) {
         ctx.nontrivial();
         let mut s = Spec::base();
         d(&mut s);
-        run_spec(ctx, &s, name);
+        run_spec(ctx, &s, name, EXTRAS_ALL);
         ctx.sample(|| json!({"deviations": name}));
     }
-    ctx.space("deviations/2", &format!("all {} unordered pairs of deviations", devs.len() * (devs.len() - 1) / 2));
+    ctx.space("deviations/2", &format!("all {} unordered pairs of deviations, each also through sub_ontology / v2 file / v1 file / from_standard_transitive and every 97th (thorough: every) pair through clone()", devs.len() * (devs.len() - 1) / 2));
+    let mut pair_no = 0usize;
     for i in 0..devs.len() {
         for j in i + 1..devs.len() {
+            pair_no += 1;
             if !ctx.take() {
                 continue;
             }
@@ -348,15 +490,17 @@ pub fn run(ctx: &mut Ctx) {
             (devs[i].1)(&mut s);
             (devs[j].1)(&mut s);
             let label = format!("{} + {}", devs[i].0, devs[j].0);
-            run_spec(ctx, &s, &label);
+            run_spec(ctx, &s, &label, if thorough || pair_no % 97 == 0 { EXTRAS_ALL } else { EXTRAS_ALL_BUT_CLONE });
             ctx.sample(|| json!({"deviations": label}));
         }
     }
     {
-        ctx.space("deviations/3", "all unordered triples of deviations");
+        ctx.space("deviations/3", "all unordered triples of deviations; every 5th triple additionally through one of sub_ontology / v2 file / v1 file / from_standard_transitive (in rotation)");
+        let mut triple_no = 0usize;
         for i in 0..devs.len() {
             for j in i + 1..devs.len() {
                 for k in j + 1..devs.len() {
+                    triple_no += 1;
                     if !ctx.take() {
                         continue;
                     }
@@ -367,7 +511,7 @@ pub fn run(ctx: &mut Ctx) {
                     (devs[j].1)(&mut s);
                     (devs[k].1)(&mut s);
                     let label = format!("{} + {} + {}", devs[i].0, devs[j].0, devs[k].0);
-                    run_spec(ctx, &s, &label);
+                    run_spec(ctx, &s, &label, if triple_no % 5 == 0 { extras_one(triple_no / 5) } else { EXTRAS_NONE });
                     ctx.sample(|| json!({"deviations": label}));
                 }
             }
@@ -390,7 +534,7 @@ pub fn run(ctx: &mut Ctx) {
                         (devs[k].1)(&mut s);
                         (devs[l].1)(&mut s);
                         let label = format!("{} + {} + {} + {}", devs[i].0, devs[j].0, devs[k].0, devs[l].0);
-                        run_spec(ctx, &s, &label);
+                        run_spec(ctx, &s, &label, EXTRAS_NONE);
                         ctx.sample(|| json!({"deviations": label}));
                     }
                 }
@@ -404,8 +548,10 @@ pub fn run(ctx: &mut Ctx) {
     // ---- every small shape (DAGs <= 4 terms x flags x record patterns), loaded from the independent
     // encoder (so obsolete / replaced terms occur) and from the Builder where no flag is set
     let family = format_family(4, if thorough { 1 } else { 2 });
-    ctx.space("family/small-ontologies", &format!("{} fact sets (labelled DAGs over HP:1, HP:118 + <=2 terms x flag variants x record patterns) via from_bytes(encoder), without flags via Builder, with flags via from_standard in both stanza orders", family.len()));
+    ctx.space("family/small-ontologies", &format!("{} fact sets (labelled DAGs over HP:1, HP:118 + <=2 terms x flag variants x record patterns) via from_bytes(encoder), without flags via Builder, with flags via from_standard in both stanza orders, and through one of sub_ontology / v2 file / v1 file / from_standard_transitive in rotation (thorough: also clone)", family.len()));
+    let mut family_no = 0usize;
     for (f, what) in &family {
+        family_no += 1;
         if !ctx.take() {
             continue;
         }
@@ -415,10 +561,16 @@ pub fn run(ctx: &mut Ctx) {
         }
         let case = || json!({"family": what, "facts": f.to_json()});
         ctx.transitions(f.n_steps());
+        let mut base: Option<Ontology> = None;
         match drive::from_bytes(&encode::encode(f, &EncOpts::v(3))) {
-            Ok(Ok(o)) => roundtrip(ctx, &o, "from_bytes(independent encoder)", &case),
+            Ok(Ok(o)) => {
+                roundtrip(ctx, &o, "from_bytes(independent encoder)", &case);
+                base = Some(o);
+            }
             other => ctx.violation("Ontology::from_bytes", "rejects a file laid out as documented", json!({"case": case(), "observed": format!("{:?}", other.map(|r| r.map(|_| ())))})),
         }
+        // one of the further constructors, in rotation over the family
+        extra_sources(ctx, f, base.as_ref(), if thorough && family_no % 5 == 0 { 1 } else { extras_one(family_no) }, true, true, false, &case);
         if f.terms.iter().all(|t| !t.obsolete && t.replacement.is_none()) {
             ctx.transitions(f.n_steps());
             if let Ok(o) = drive::build(f, Mode::Defaults) {
@@ -447,6 +599,107 @@ pub fn run(ctx: &mut Ctx) {
         }
         ctx.sample(|| json!({"family": what}));
     }
-    jax::cleanup();
 
+    // ---- writer-side sizes: id lists across the inline capacities and 8-bit borders, sections beyond 64 KiB
+    {
+        // fan-in: m hub terms below HP:118 and one leaf with all m hubs as parents; a gene on all m+1 of them, an OMIM
+        // disease on the m hubs, an ORPHA disease on m-1 hubs; a second record per kind
+        let fan = |m: usize| -> Facts {
+            let mut f = Facts::default();
+            f.version = (2024, 2, 29);
+            f.terms.push(Facts::term(1, "All"));
+            f.terms.push(Facts::term(118, "Phenotypic abnormality"));
+            f.edges.push((118, 1));
+            let leaf = 5000u32;
+            for k in 0..m as u32 {
+                f.terms.push(Facts::term(1000 + k, &format!("Hub {k}")));
+                f.edges.push((1000 + k, 118));
+            }
+            f.terms.push(Facts::term(leaf, "Leaf"));
+            for k in 0..m as u32 {
+                f.edges.push((leaf, 1000 + k));
+            }
+            for k in 0..m as u32 {
+                f.anns.push(Facts::ann(Kind::Gene, 11, "GENE1", Some(1000 + k)));
+                f.anns.push(Facts::ann(Kind::Omim, 600_001, "Disease one", Some(1000 + k)));
+                if k + 1 < m as u32 {
+                    f.anns.push(Facts::ann(Kind::Orpha, 77, "Orpha one", Some(1000 + k)));
+                }
+            }
+            f.anns.push(Facts::ann(Kind::Gene, 11, "GENE1", Some(leaf)));
+            f.anns.push(Facts::ann(Kind::Gene, 22, "GENE2", Some(leaf)));
+            f.anns.push(Facts::ann(Kind::Omim, 600_002, "Disease two", Some(118)));
+            f.anns.push(Facts::ann(Kind::Orpha, 78, "Orpha two", Some(leaf)));
+            f
+        };
+        let mut sizes: Vec<usize> = vec![9, 10, 11, 29, 30, 31, 32, 35, 40, 255, 256, 300];
+        if thorough {
+            sizes = (2..=70).chain(250..=260).chain([300, 511, 512, 1000]).collect();
+        }
+        let mut cases: Vec<(Facts, String)> = sizes.iter().map(|&m| (fan(m), format!("a term with {m} parents, a gene with {} terms, an OMIM disease with {m} terms, an ORPHA disease with {} terms", m + 1, m - 1))).collect();
+        for (f, what) in super::common::large_family() {
+            if what.starts_with("deep chain of 300 terms") {
+                let mut g = f.clone();
+                for t in &f.terms {
+                    g.anns.push(Facts::ann(Kind::Gene, 11, "GENE1", Some(t.id)));
+                    g.anns.push(Facts::ann(Kind::Omim, 600_001, "Disease one", Some(t.id)));
+                }
+                g.anns.push(Facts::ann(Kind::Orpha, 77, "Orpha one", Some(118)));
+                cases.push((g, format!("{what}, a gene and an OMIM disease on every term")));
+            }
+        }
+        {
+            // sections beyond 64 KiB: 3000 leaves with 20-byte names (term section ~100 KiB) and five parents each
+            // (parent section ~84 KiB), one gene per leaf (gene section ~78 KiB), an OMIM disease on every leaf
+            let mut f = Facts::default();
+            f.version = (2024, 2, 29);
+            f.terms.push(Facts::term(1, "All"));
+            f.terms.push(Facts::term(118, "Phenotypic abnormality"));
+            f.edges.push((118, 1));
+            for h in 0..5u32 {
+                f.terms.push(Facts::term(1000 + h, &format!("Hub {h}")));
+                f.edges.push((1000 + h, 118));
+            }
+            for k in 0..3000u32 {
+                f.terms.push(Facts::term(10_000 + k, &format!("Term number {k:08}")));
+                for h in 0..5u32 {
+                    f.edges.push((10_000 + k, 1000 + h));
+                }
+                f.anns.push(Facts::ann(Kind::Gene, 100_000 + k, &format!("GENE{k:05}"), Some(10_000 + k)));
+                f.anns.push(Facts::ann(Kind::Omim, 600_001, "Disease one", Some(10_000 + k)));
+                if k < 300 {
+                    f.anns.push(Facts::ann(Kind::Orpha, 77, "Orpha one", Some(10_000 + k)));
+                }
+            }
+            f.anns.push(Facts::ann(Kind::Omim, 600_002, "Disease two", Some(1000)));
+            f.anns.push(Facts::ann(Kind::Orpha, 78, "Orpha two", Some(1001)));
+            cases.push((f, "3007 terms with 20-byte names and five parents each, 3000 genes: term, parent and gene sections beyond 64 KiB; an OMIM disease with 3000 terms".into()));
+        }
+        ctx.space("sizes/writer-side", &format!("{} fact sets (a term with m parents and records with m-1, m, m+1 terms for m in {:?}; a chain of 300 with records on every term; sections beyond 64 KiB) via Builder, from_bytes(encoder), from_standard", cases.len(), sizes));
+        for (f, what) in &cases {
+            if !ctx.take() {
+                continue;
+            }
+            ctx.state();
+            ctx.nontrivial();
+            let case = || json!({"shape": what, "terms": f.terms.len(), "links": f.edges.len(), "annotation_facts": f.anns.len()});
+            ctx.transitions(f.n_steps());
+            match drive::build(f, Mode::Defaults) {
+                Ok(o) => roundtrip(ctx, &o, "Builder", &case),
+                Err(e) => ctx.violation("Builder", "construction fails on valid facts", json!({"case": case(), "observed": e})),
+            }
+            ctx.transitions(f.n_steps());
+            match drive::from_bytes(&encode::encode(f, &EncOpts::v(3))) {
+                Ok(Ok(o)) => roundtrip(ctx, &o, "from_bytes(independent encoder)", &case),
+                other => ctx.violation("Ontology::from_bytes", "rejects a file laid out as documented", json!({"case": case(), "observed": format!("{:?}", other.map(|r| r.map(|_| ())))})),
+            }
+            ctx.transitions(f.n_steps());
+            match jax::load(&jax::render(f, &JaxOpts::default()), false) {
+                Ok(Ok(o)) => roundtrip(ctx, &o, "from_standard", &case),
+                other => ctx.violation("Ontology::from_standard", "rejects valid JAX files", json!({"case": case(), "observed": format!("{:?}", other.map(|r| r.map(|_| ())))})),
+            }
+            ctx.sample(|| case());
+        }
+    }
+    jax::cleanup();
 }
